@@ -153,17 +153,24 @@ def case_bounds(ctx, nf, grid, band):
     ff, fl = f[idx[0]], f[idx[-1]]
     pos = ctx.lt(0, m0)
     ctx.reach("D-B")
-    ctx.check(ctx.implies(pos, ctx.le(m1 * m1, m0 * m2)), "D-B.cs", info="m1^2 <= m0 m2  (Tm02 <= Tm01)")
-    ctx.check(ctx.implies(pos, ctx.And(ctx.le(ff * m0, m1), ctx.le(m1, fl * m0))), "D-B.tm01")
-    ctx.check(ctx.implies(pos, ctx.And(ctx.le(ff * ff * m0, m2), ctx.le(m2, fl * fl * m0))), "D-B.tm02")
+    c_cs = ctx.implies(pos, ctx.le(m1 * m1, m0 * m2))
+    c_t1 = ctx.implies(pos, ctx.And(ctx.le(ff * m0, m1), ctx.le(m1, fl * m0)))
+    c_t2 = ctx.implies(pos, ctx.And(ctx.le(ff * ff * m0, m2), ctx.le(m2, fl * fl * m0)))
+    ok = [ctx.check(c_cs, "D-B.cs", info="m1^2 <= m0 m2  (Tm02 <= Tm01)"),
+          ctx.check(c_t1, "D-B.tm01"), ctx.check(c_t2, "D-B.tm02")]
     tm01 = C.values(s.tm01(fmin, fmax))[0]
     tm02 = C.values(s.tm02(fmin, fmax))[0]
-    # stated on the periods themselves
+    if not all(ok):
+        return
+    # stated on the periods themselves: consequences of the three moment inequalities (moments abstracted)
+    ab = [m0, m1, m2]
+    lem = [c_cs, c_t1, c_t2, ctx.le(0, ff), ctx.lt(ff, fl)]
     ctx.check(ctx.implies(ctx.And(pos, ctx.lt(0, m1)), ctx.And(ctx.le(1, tm01 * fl), ctx.le(tm01 * ff, 1))),
-              "D-B.tm01.period", info="1/f_last <= Tm01 <= 1/f_first")
+              "D-B.tm01.period", info="1/f_last <= Tm01 <= 1/f_first", abstract=ab, lemmas=lem)
     ctx.check(ctx.implies(ctx.And(pos, ctx.lt(0, m2)), ctx.And(ctx.le(1, tm02 * fl), ctx.le(tm02 * ff, 1))),
-              "D-B.tm02.period", info="1/f_last <= Tm02 <= 1/f_first")
-    ctx.check(ctx.implies(ctx.And(pos, ctx.lt(0, m1), ctx.lt(0, m2)), ctx.le(tm02, tm01)), "D-B.order", info="Tm02 <= Tm01")
+              "D-B.tm02.period", info="1/f_last <= Tm02 <= 1/f_first", abstract=ab, lemmas=lem)
+    ctx.check(ctx.implies(ctx.And(pos, ctx.lt(0, m1), ctx.lt(0, m2)), ctx.le(tm02, tm01)), "D-B.order",
+              info="Tm02 <= Tm01", abstract=ab, lemmas=lem)
 
 
 def case_2d(ctx, nf, nd, fgrid, dgrid, layout, band, nanmask=None):
